@@ -364,6 +364,15 @@ func respString(r httpResp) string {
 	return fmt.Sprintf("status=%d headers={%s} body=%q panic=%q", r.Status, strings.Join(hs, "; "), r.Body, r.Panic)
 }
 
+// c11Gorace: race reports are not verdicts of this check (the -race build only perturbs the schedule); a
+// development run can keep them (VERIF_RACE_LOG=<path prefix>) to locate unsynchronised interpreter state.
+func c11Gorace() string {
+	if p := os.Getenv("VERIF_RACE_LOG"); p != "" {
+		return "GORACE=halt_on_error=0 log_path=" + p
+	}
+	return "GORACE=halt_on_error=0 log_path=/dev/null"
+}
+
 var tagRe = regexp.MustCompile(`r(\d+)[qphc][a-f]`)
 var ridRe = regexp.MustCompile(`rid=r(\d+)`)
 
@@ -592,7 +601,7 @@ func TestC11(t *testing.T) {
 			p.Binary = raceBin
 			p.RSSLimit = 6 << 30
 			// The -race build is used here only as a schedule perturbation (different timing, same oracle).
-			p.ExtraEnv = append(p.ExtraEnv, "GORACE=halt_on_error=0 log_path=/dev/null")
+			p.ExtraEnv = append(p.ExtraEnv, c11Gorace())
 		}
 		procPools[k] = p
 		return p
@@ -603,7 +612,7 @@ func TestC11(t *testing.T) {
 		// Race reports are not failures of this property: the statement is about what a response
 		// depends on, and the interpreter's lazily memoised AST nodes (NewExpression.resolveClass,
 		// CallLater.GetValue) are reported as races without changing any response. C10 owns races.
-		racePool = &sb.Pool{Binary: raceBin, ExtraEnv: []string{"GORACE=halt_on_error=0 log_path=/dev/null"}, RSSLimit: 6 << 30}
+		racePool = &sb.Pool{Binary: raceBin, ExtraEnv: []string{c11Gorace()}, RSSLimit: 6 << 30}
 		defer racePool.Close()
 	}
 	total := 1200 / cfg.NShards
